@@ -327,17 +327,17 @@ def _report_ds(ns, nf):
     return dsutils.encode(ds, True, True)
 
 
-@cond(bounds='storage commitment N-EVENT-REPORT provider: message id, context id, event type symbolic; handler accepts '
+@cond(bounds='storage commitment N-EVENT-REPORT provider: message id, context id, event type symbolic; SOP instance = the well-known push-model instance or another UID (symbolic); handler accepts '
              '/ raises EventHandlingError (symbolic); success-only / failure-only / mixed instance lists (sizes 0..2)',
       timeout=240)
-def n_event_report_response(mid: int, h: int, fail: bool, ns: int, nf: int, ev: int) -> bool:
+def n_event_report_response(mid: int, h: int, fail: bool, ns: int, nf: int, ev: int, other: bool) -> bool:
     """
     pre: 0 <= mid <= 65535 and 0 <= h <= 127 and 0 <= ns <= 2 and 0 <= nf <= 2 and 1 <= ev <= 2 and ns + nf >= 1
     post: _
     """
     ns, nf = pick(ns, 0, 2), pick(nf, 0, 2)
     sop = str(sopclass.STORAGE_COMMITMENT_SOP_CLASS)
-    inst = str(sopclass.STORAGE_COMMITMENT_PUSH_MODEL_SOP_CLASS)
+    inst = '1.2.826.0.1.99.7' if other else str(sopclass.STORAGE_COMMITMENT_PUSH_MODEL_SOP_CLASS)
     ae = AE(0, fail)
     asce = RecAssoc(ae)
     rq = dm.NEventReportRQMessage()
@@ -392,4 +392,49 @@ def get_store_responses(mid1: int, mid2: int, h: int, st: int, fail: bool, n: in
         ok = ok and correlated(s, store_cid, 0x8001, mid, SOP_A, '1.2.3.%d' % i)
         ok = ok and s.status == (0xC000 if fail else st)
     deep(ok and n == 2 and not fail)
+    return ok
+
+
+# ------------------------------------------------------------------------------------------------
+# through the acceptor loop: the context handed to the provider is the one the request arrived on
+# ------------------------------------------------------------------------------------------------
+
+from vt.harness import assoc as A
+from pynetdicom2 import applicationentity, pdu
+
+TS_IMPL = '1.2.840.10008.1.2'
+TS_EXPL = '1.2.840.10008.1.2.1'
+
+
+def _echo_rq(mid):
+    rq = dm.CEchoRQMessage()
+    rq.message_id = mid
+    rq.sop_class_uid = sopclass.VERIFICATION_SOP_CLASS
+    return rq
+
+
+@cond(bounds='whole acceptor loop with the real verification provider: the verification class is accepted on two '
+             'contexts (ids 1 and 3, different transfer syntaxes) and two C-ECHO requests arrive, each on a context '
+             'chosen symbolically, with symbolic message ids', timeout=180)
+def loop_context(first_on_3: bool, second_on_3: bool, mid1: int, mid2: int) -> bool:
+    """
+    pre: 0 <= mid1 <= 65535 and 0 <= mid2 <= 65535
+    post: _
+    """
+    ae = object.__new__(applicationentity.AE)
+    applicationentity.AEBase.__init__(ae, [TS_IMPL, TS_EXPL], 16384)
+    ae.add_scp(sopclass.verification_scp)
+    v = str(sopclass.VERIFICATION_SOP_CLASS)
+    rq = pdu.AAssociateRqPDU('SCP', 'SCU', [
+        pdu.ApplicationContextItem(A.APP_CTX),
+        pdu.PresentationContextItemRQ(1, pdu.AbstractSyntaxSubItem(v), [pdu.TransferSyntaxSubItem(TS_IMPL)]),
+        pdu.PresentationContextItemRQ(3, pdu.AbstractSyntaxSubItem(v), [pdu.TransferSyntaxSubItem(TS_EXPL)]),
+        A.user_info(16384)])
+    c1, c2 = (3 if first_on_3 else 1), (3 if second_on_3 else 1)
+    acc, dul, err = A.run_acceptor(ae, 16384, [rq, (_echo_rq(mid1), c1), (_echo_rq(mid2), c2)])
+    from vt.harness.svc import Sent
+    rsps = [Sent(list(g)) for g in dul.sent[1:] if not hasattr(g, 'pdu_type')]
+    ok = err is None and len(rsps) == 2
+    ok = ok and correlated(rsps[0], c1, 0x8030, mid1, v) and correlated(rsps[1], c2, 0x8030, mid2, v)
+    deep(ok and first_on_3 and not second_on_3)
     return ok
